@@ -26,15 +26,21 @@ pub fn gen(seed: u64, thorough: bool) {
     // ---- (a) k threads on one shared engine, random start stagger, mixed synthesize / generator use
     let nsched = if thorough { 1500 } else { 60 };
     for i in 0..nsched {
-        let (mut e, kind) = if i % 3 == 0 { (src.bundled.clone(), "bundled") } else { src.any_engine(&mut rng) };
+        let (factory, kind): (Box<dyn Fn() -> Engine>, &'static str) =
+            if i % 3 == 0 { (Box::new(|| Engine::load(&[BUNDLED_VOICE]).expect("bundled voice")), "bundled") } else { src.any_engine_factory(&mut rng) };
+        let mut e = factory();
         random_condition(&mut rng, &mut e, true);
         e.condition.set_phoneme_alignment_flag(false);
         let k = *rng.pick(&[2usize, 4, 8, 16]);
-        let utterances: Vec<Vec<String>> = (0..3).map(|_| { let n = rng.range(1, 3); let rc = rng.chance(0.5); src.labels(&mut rng, n, rc) }).collect();
+        // utterances of different lengths and from different sentences (the voice's GV trees look at utterance-level fields)
+        let utterances: Vec<Vec<String>> = (0..3).map(|j| { let n = if j == 1 { rng.range(4, 9) } else { rng.range(1, 3) }; let rc = rng.chance(0.5); src.labels(&mut rng, n, rc) }).collect();
         let before = getters(&e);
-        // sequential reference
-        let reference: Vec<Vec<f64>> = utterances.iter().map(|u| e.synthesize(u.clone()).unwrap()).collect();
-        let repeat_ok = utterances.iter().zip(&reference).all(|(u, r)| bits_eq(&e.synthesize(u.clone()).unwrap(), r));
+        // reference: every utterance on its own freshly loaded engine (same condition) that has never synthesized
+        // anything else — a result that depends on what an engine did before cannot equal it
+        let reference: Vec<Vec<f64>> = utterances.iter().map(|u| { let mut f = factory(); f.condition = e.condition.clone(); f.synthesize(u.clone()).unwrap() }).collect();
+        // the same engine, one utterance after the other, twice
+        let first_pass_ok = utterances.iter().zip(&reference).all(|(u, r)| bits_eq(&e.synthesize(u.clone()).unwrap(), r));
+        let repeat_ok = first_pass_ok && utterances.iter().zip(&reference).all(|(u, r)| bits_eq(&e.synthesize(u.clone()).unwrap(), r));
         let clone_ok = { let c = e.clone(); utterances.iter().zip(&reference).all(|(u, r)| bits_eq(&c.synthesize(u.clone()).unwrap(), r)) };
         let shared = Arc::new(e.clone());
         let barrier = Arc::new(Barrier::new(k));
